@@ -1,0 +1,11 @@
+//go:build verif
+
+package wtxmgr
+
+import "github.com/lightningnetwork/lnd/clock"
+
+// VerifSetClock replaces the clock the store uses to decide whether output
+// leases have expired.  Verification builds only.
+func (s *Store) VerifSetClock(c clock.Clock) {
+	s.clock = c
+}
